@@ -16,6 +16,7 @@ Definition run (req : sexp) : sexp :=
   | Li [At "files"; x] => run_files x
   | Li [At "C13"; x] => run_C13 x
   | Li [At "sys"; x] => run_sys x
+  | Li [At "des"; x] => run_des x
   | Li [At "C08"; x] => run_C08 x
   | _ => bad_request
   end.
